@@ -1,5 +1,6 @@
 """C17 — containers and string/number primitives (DESIGN.md §4.17). Agreement with an abstract model on
 values is not decided; the structural invariants the model rests on are."""
+import re
 from ..facts import load, S, strip, nodes, is_lit, lit_name, AnalysisBroken
 from ..report import Result
 from .. import cfg as C
@@ -311,6 +312,8 @@ def run(repo='/repo', tier='quick'):
                 res.check(wrap or both, 'C17.f', '%s:%s=%s' % (n_, cur_, P.K(w_['r'])), 'at the wrap, or together with the other cursor',
                           '%s rewinds `%s` alone and not at the wrap (guards: %s): the other cursor keeps its place, so the next push stores where no lookup reads' % (n_, cur_, facts_[-2:]), w_['loc'])
     res.floor('C17.f', 'rewinds of a ring cursor to 0', nz, 5)
+    c17g(db, res)
+    c17h(db, res)
     return res
 
 
@@ -390,3 +393,83 @@ def c17e(db, res):
             res.check(ok, 'C17.e', 'index_of_nocasenorzero:nul-skip:net-effect', 'haystack cursor +1, needle cursor 0',
                       'the iteration that skips a NUL byte of the haystack has net effect %s: the NUL consumes a position of the needle (it acts as a wildcard) or the haystack cursor does not move - "ch\\0unked" is no longer found' % (delta,), c[0]['loc'])
     res.floor('C17.e', 'NUL-skip paths of the inner search loop', n, 1)
+
+
+def _var_writes(f, blocks, name):
+    """(block, node) of every write to the local `name` inside `blocks`"""
+    out = []
+    for bb in blocks:
+        for st in f.blocks[bb]['stmts']:
+            for y in nodes(st, lambda y: (y.get('k') == 'un' and y['op'] in ('++', '++post', '--', '--post') and strip(y['e']).get('k') == 'var' and strip(y['e'])['name'] == name)
+                           or (y.get('k') == 'assign' and strip(y['l']).get('k') == 'var' and strip(y['l'])['name'] == name)):
+                out.append((bb, y))
+    return out
+
+
+def c17g(db, res):
+    """The substring searches are the naive algorithm: try every start position in turn. That is only correct if the start
+    position moves by exactly one per attempt - skipping ahead by the length of a failed partial match loses occurrences
+    that begin inside it ("aab" in "aaab") unless the skip comes from a failure table, which this code does not have."""
+    res.rule('C17.g', 'substring search tries every start position: in each bstr_util_mem_index_of_mem* function the start cursor of the outer loop (the value returned on a match) is written exactly once inside that loop, by its ++ step')
+    n = 0
+    for name, f in sorted(db.fn.items()):
+        if 'index_of_mem' not in name or not f.blocks or not f.loc.startswith('htp/bstr.c'):
+            continue
+        lps = C.loops(f)
+        # the start cursor: a local returned (cast to int) from inside a loop
+        rets = set()
+        for b, i, st in f.returns() or []:
+            rv = strip(P.ret_value(st)) if P.ret_value(st) is not None else None
+            if rv is not None and rv.get('k') == 'var' and rv.get('vk', rv.get('kind')) != 'param':
+                rets.add(rv['name'])
+        for v in sorted(rets):
+            outer = [(h, body) for h, body in lps if any(bb for bb in body if _var_writes(f, [bb], v))]
+            if not outer:
+                continue
+            h, body = max(outer, key=lambda hb: len(hb[1]))
+            ws = _var_writes(f, body, v)
+            n += 1
+            ok = len(ws) == 1 and ws[0][1].get('k') == 'un' and ws[0][1]['op'] in ('++', '++post')
+            res.check(ok, 'C17.g', '%s:start-cursor:%s' % (name, v), 'the start position advances by one per attempt',
+                      '%s changes its start position `%s` %d times inside the search loop (%s): after a failed partial match the search no longer resumes at the next byte, so an occurrence that begins inside the partial match is missed ("aab" in "aaab")'
+                      % (name, v, len(ws), '; '.join(S(w) for b_, w in ws)), ws[-1][1].get('loc', f.loc) if ws else f.loc)
+    res.floor('C17.g', 'search loops with a returned start cursor', n, 3)
+
+
+NUMERIC_PARSERS = ['htp_parse_chunked_length', 'htp_parse_positive_integer_whitespace', 'bstr_util_mem_to_pint', 'htp_parse_content_length', 'htp_parse_port', 'htp_parse_status']
+
+
+def c17h(db, res):
+    """A numeric field is the whole run of digits. A scan that stops after a fixed number of digits, combined with the
+    "cut off what follows the digits" step, silently drops the remaining digits: "100000005" is read as 0x10000000 instead of
+    being refused as too large. The bound of a scan over the text is its length, never a constant."""
+    res.rule('C17.h', 'numeric fields are scanned to their end: in the numeric parsers no loop that steps a cursor over the text leaves it because the cursor reached a constant; the only exits are the end of the text (cursor against a length) and a test of the byte at the cursor')
+    n = 0
+    for name in NUMERIC_PARSERS:
+        f = db.fn.get(name)
+        if f is None or not f.blocks:
+            continue
+        for h, body in C.loops(f):
+            stepped = {strip(u['e'])['name'] for bb in body for st in f.blocks[bb]['stmts']
+                       for u in nodes(st, lambda y: y.get('k') == 'un' and y['op'] in ('++', '++post', '--', '--post') and strip(y['e']).get('k') == 'var')}
+            stepped |= {strip(a['l'])['name'] for bb in body for st in f.blocks[bb]['stmts']
+                        for a in nodes(st, lambda y: y.get('k') == 'assign' and y['op'] in ('+=', '-=') and strip(y['l']).get('k') == 'var')}
+            # a cursor over the text: stepped in the loop and used to subscript it
+            subs = {strip(x['idx'])['name'] for bb in body for st in f.blocks[bb]['stmts'] for x in nodes(st, lambda y: y.get('k') == 'index' and strip(y['idx']).get('k') == 'var')}
+            for bb in body:
+                c_ = f.cond_of(bb)
+                if c_:
+                    subs |= {strip(x['idx'])['name'] for x in nodes(c_[0], lambda y: y.get('k') == 'index' and strip(y['idx']).get('k') == 'var')}
+            stepped &= subs
+            for bb in sorted(body):
+                c = f.cond_of(bb)
+                if not c or all(s_ in body for s_ in f.blocks[bb]['succs'] if s_ is not None):
+                    continue                                   # not an exit of this loop
+                a = P.canon(c[0], True)
+                if not a:
+                    continue
+                n += 1
+                cur_const = a[0] in stepped and re.match(r'^-?(0x[0-9a-fA-F]+|[0-9]+)$', a[2]) and a[1] in ('<', '<=', '>', '>=', '==', '!=') and a[2] not in ('0',)
+                res.check(not cur_const, 'C17.h', '%s:loop-exit:%s%s%s' % (name, a[0], a[1], a[2] if not cur_const else 'K'), 'exit on the length of the text or on a byte test',
+                          '%s leaves a scan of the text when its cursor `%s` reaches the constant %s: the digits beyond that position are cut off with the trailing junk and a longer number is read as its first digits instead of being refused' % (name, a[0], a[2]), c[0].get('loc', f.loc))
+    res.floor('C17.h', 'loop exits in the numeric parsers', n, 8)
